@@ -262,6 +262,8 @@ def emit_arm(item, ledger, global_rewrites, probe=False):
     if not arm["body_is_block"]:
         body = "{ " + body + " }"
     tail = item.get("tail", "")
+    if item.get("wrap"):   # the arm is an expression whose value the enclosing function wraps, e.g. Ok(<arm value>)
+        body = item["wrap"] % body
     body = "{" + pro + " " + body + tail + " }"
     txt = "pub fn %s(%s) -> (%s: %s)%s%s\n" % (item["fn_name"], item["params"], item.get("ret", "ret"),
                                              item["ret_ty"], contract, body)
